@@ -496,7 +496,9 @@ class C2Profile(ConfigBlock):
                 http_post.set_option("uri", value)
             elif setting == BeaconSetting.SETTING_C2_RECOVER:
                 c2_recover = []
-                for k, v in value:
+                # the recover program is stored in the order the beacon undoes it, a profile lists the steps in the
+                # order the server applies them
+                for k, v in reversed(value):
                     if v is True:
                         c2_recover.append(k)
                     elif isinstance(v, int):
